@@ -136,13 +136,12 @@ func scenarios(pick func(q, t int) int) []scenario {
 // abstract file system
 
 type inode struct {
-	id     int
-	kind   byte   // 'f' file, 'l' symlink
-	pre    bool   // existed (durably) before the traced operation
-	base   []byte // content in the pre-state (files)
-	link   string // symlink target
-	label  string // stable name for signatures: p:<path> for pre-existing, n<k> for k-th created
-	nlinks int    // volatile link count while parsing (informational)
+	id    int
+	kind  byte   // 'f' file, 'l' symlink
+	pre   bool   // existed (durably) before the traced operation
+	base  []byte // content in the pre-state (files)
+	link  string // symlink target
+	label string // stable name for signatures: p:<path> for pre-existing, n<k> for k-th created
 }
 
 type setEnt struct {
@@ -183,8 +182,7 @@ type trace struct {
 	fsyncs    map[int][]int
 	fsyncDirs map[string][]int
 	sigMeta   []metaRec // metadata operations (ignored by the oracle; position = number of events before)
-	syscalls  int      // relevant system calls parsed (all, incl. those without a model effect)
-	sig       []string // normalised full syscall signature (determinism + replay divergence check)
+	syscalls  int       // relevant system calls parsed (all, incl. those without a model effect)
 	// volatile state while parsing
 	vol map[string]map[string]int
 	fds map[int]*fdEnt
